@@ -180,6 +180,12 @@ theorem lEffect_mem {m : LMut} {xs xs' : Items} (h : lEffect m xs = .ok xs') :
       obtain ⟨i, _, hi⟩ := hp
       exact .inl (List.mem_of_getElem? hi)
   | sortFail => simp [lEffect] at h
+  | sortRaise perm =>
+      simp only [lEffect] at h
+      injection h with h; subst h
+      simp only [List.mem_filterMap] at hp
+      obtain ⟨i, _, hi⟩ := hp
+      exact .inl (List.mem_of_getElem? hi)
   | clear =>
       simp only [lEffect] at h
       injection h with h; subst h
@@ -319,7 +325,7 @@ theorem valid_args_allW {k : Kind} {m : LMut} (h : m.valid k = true) : m.args.al
 /-! ### one mutator applied to one node -/
 
 theorem applyL_sound {cfg : Cfg} (hc : cfg.covers = true) {m : LMut} {t t' : T} {n : Bool}
-    (ht : allW t = true) (ha : (m.prep cfg).args.all allW = true) (h : applyL cfg m t = .ok (t', n)) :
+    (ht : allW t = true) (ha : (m.prep cfg).args.all allW = true) (hr : notifies cfg m = true) (h : applyL cfg m t = .ok (t', n)) :
     allW t' = true ∧ n = true := by
   cases t with
   | atom a => simp [applyL] at h
@@ -329,7 +335,7 @@ theorem applyL_sound {cfg : Cfg} (hc : cfg.covers = true) {m : LMut} {t t' : T} 
     | list =>
         have hw : w = true := allW_node_w ht (by decide)
         subst hw
-        simp only [applyL, Bool.true_and, Cfg.covers_list hc, if_true] at h
+        simp only [applyL, Bool.true_and, Cfg.covers_list hc, if_true, hr] at h
         split at h
         · rename_i xs' he
           injection h with h; injection h with h1 h2
@@ -339,7 +345,7 @@ theorem applyL_sound {cfg : Cfg} (hc : cfg.covers = true) {m : LMut} {t t' : T} 
     | iarr =>
         have hw : w = true := allW_node_w ht (by decide)
         subst hw
-        simp only [applyL, Bool.true_and, Cfg.covers_arr hc] at h
+        simp only [applyL, Bool.true_and, Cfg.covers_arr hc, hr] at h
         split at h
         · cases h
         · rename_i hv
@@ -353,7 +359,7 @@ theorem applyL_sound {cfg : Cfg} (hc : cfg.covers = true) {m : LMut} {t t' : T} 
     | sarr =>
         have hw : w = true := allW_node_w ht (by decide)
         subst hw
-        simp only [applyL, Bool.true_and, Cfg.covers_arr hc] at h
+        simp only [applyL, Bool.true_and, Cfg.covers_arr hc, hr] at h
         split at h
         · cases h
         · rename_i hv
@@ -516,7 +522,7 @@ theorem run_append (cfg : Cfg) (a b : List Op) (s : St) : run cfg (a ++ b) s = r
 /-! ### notification does not depend on what is stored -/
 
 theorem applyL_notifies {cfg : Cfg} (hc : cfg.covers = true) {m : LMut} {t t' : T} {n : Bool}
-    (ht : allW t = true) (h : applyL cfg m t = .ok (t', n)) : n = true := by
+    (ht : allW t = true) (hr : notifies cfg m = true) (h : applyL cfg m t = .ok (t', n)) : n = true := by
   cases t with
   | atom a => simp [applyL] at h
   | node k w xs =>
@@ -524,14 +530,14 @@ theorem applyL_notifies {cfg : Cfg} (hc : cfg.covers = true) {m : LMut} {t t' : 
     | list =>
         have hw : w = true := allW_node_w ht (by decide)
         subst hw
-        simp only [applyL, Bool.true_and, Cfg.covers_list hc, if_true] at h
+        simp only [applyL, Bool.true_and, Cfg.covers_list hc, if_true, hr] at h
         split at h
         · injection h with h; injection h with h1 h2; exact h2.symm
         · cases h
     | iarr =>
         have hw : w = true := allW_node_w ht (by decide)
         subst hw
-        simp only [applyL, Bool.true_and, Cfg.covers_arr hc] at h
+        simp only [applyL, Bool.true_and, Cfg.covers_arr hc, hr] at h
         split at h
         · cases h
         · split at h
@@ -540,7 +546,7 @@ theorem applyL_notifies {cfg : Cfg} (hc : cfg.covers = true) {m : LMut} {t t' : 
     | sarr =>
         have hw : w = true := allW_node_w ht (by decide)
         subst hw
-        simp only [applyL, Bool.true_and, Cfg.covers_arr hc] at h
+        simp only [applyL, Bool.true_and, Cfg.covers_arr hc, hr] at h
         split at h
         · cases h
         · split at h
